@@ -36,7 +36,7 @@ def plan(tier, seed):
 def build(spec, i, tag, p_read=0.3, outside=False, fault_mode="reissue"):
     info = catalog.info(spec["cls"])
     r = gen.rng_for(spec["seed"], tag, spec["cls"], spec["stratum"], i)
-    g = gen.G(r, attr=info.attr, collide=spec["stratum"] == "collide")
+    g = gen.G(r, attr=info.attr, collide=spec["stratum"] == "collide", surrogates=info.backend == "json")
     init = MISSING if r.random() < 0.05 else g.shape(info.kind, 3)
     ms = ModelState(info.kind, [init])
     n_roots = r.choice([2, 2, 3, 4]) if not outside else r.choice([1, 2, 3])
